@@ -2932,3 +2932,237 @@ def bytes_starts_with(ex, m, a, fr, dest):
 @model(r'<(?:std::ffi::)?OsString as (?:std::ops::)?Deref>::deref|<(?:std::ffi::)?OsString as AsRef<(?:std::ffi::)?OsStr>>::as_ref|(?:std::ffi::)?OsString::as_os_str')
 def osstring_deref(ex, m, a, fr, dest):
     return a[0]
+
+
+# ---------------------------------------------------------------------------- a further batch of std models (refactoring vocabulary)
+@model(r'(?:core|std|alloc)::slice::<impl \[.*\]>::get(?:_mut)?(?:::<(.*)>)?')
+def slice_get(ex, m, a, fr, dest):
+    from .interp import seq_items
+    items, lo, hi = seq_items(a[0])
+    idx = deref(a[1])
+    n = hi - lo
+    if isinstance(idx, Agg):          # a range
+        nm = last_seg(idx.ty)
+        st = idx.fields[0] if nm in ('Range', 'RangeFrom') else 0
+        en = idx.fields[1] if nm == 'Range' else (idx.fields[0] if nm == 'RangeTo' else n)
+        st = ex.concretize(st, 0, n + 1, 'range start') if is_sym(st) else st
+        en = ex.concretize(en, 0, n + 1, 'range end') if is_sym(en) else en
+        if st <= en <= n:
+            return some(Slice(items, lo + st, lo + en))
+        return none()
+    if is_sym(idx):
+        idx = ex.concretize(idx, 0, n, 'slice index')
+    if 0 <= idx < n:
+        return some(Ref(items, lo + idx, 'mut' in m.group(0)))
+    return none()
+
+
+@model(r'(?:core|std|alloc)::slice::<impl \[.*\]>::split_at(?:_mut)?')
+def slice_split_at(ex, m, a, fr, dest):
+    from .interp import seq_items
+    items, lo, hi = seq_items(a[0])
+    mid = a[1]
+    if is_sym(mid):
+        mid = ex.concretize(mid, 0, hi - lo + 1, 'split_at')
+    if mid > hi - lo:
+        raise Panic('mid > len in split_at', fr.name if fr else None)
+    return Agg('tuple', None, [Slice(items, lo, lo + mid), Slice(items, lo + mid, hi)])
+
+
+@model(r'(?:core|std|alloc)::slice::<impl \[.*\]>::(split_first|split_last)')
+def slice_split_first(ex, m, a, fr, dest):
+    from .interp import seq_items
+    items, lo, hi = seq_items(a[0])
+    if hi == lo:
+        return none()
+    if m.group(1) == 'split_first':
+        return some(Agg('tuple', None, [Ref(items, lo), Slice(items, lo + 1, hi)]))
+    return some(Agg('tuple', None, [Ref(items, hi - 1), Slice(items, lo, hi - 1)]))
+
+
+@model(r'(?:core|std|alloc)::slice::<impl \[(?!u8\]).*\]>::(starts_with|ends_with)')
+def slice_starts_with(ex, m, a, fr, dest):
+    from .interp import seq_items
+    xs, lo, hi = seq_items(a[0])
+    ys, lo2, hi2 = seq_items(a[1])
+    n, k = hi - lo, hi2 - lo2
+    if k > n:
+        return False
+    off = lo if m.group(1) == 'starts_with' else hi - k
+    for i in range(k):
+        if not ex.branch(values_eq(ex, xs[off + i], ys[lo2 + i]), 'slice prefix'):
+            return False
+    return True
+
+
+@model(r'(?:core|std|alloc)::slice::<impl \[.*\]>::chunks')
+def slice_chunks(ex, m, a, fr, dest):
+    from .interp import seq_items
+    items, lo, hi = seq_items(a[0])
+    n = a[1]
+    if is_sym(n):
+        raise Unsupported('chunks of symbolic size')
+    if n == 0:
+        raise Panic('chunk size must be non-zero', fr.name if fr else None)
+    out = [Slice(items, i, min(i + n, hi)) for i in range(lo, hi, n)]
+    return PyIter(iter(out), len(out))
+
+
+@model(r'(?:std::option::)?Option::<.*>::flatten')
+def opt_flatten(ex, m, a, fr, dest):
+    o = a[0]
+    return o.fields[0] if o.variant == 1 else none()
+
+
+@model(r'(?:std::result::)?Result::<.*>::err')
+def res_err(ex, m, a, fr, dest):
+    o = a[0]
+    return some(o.fields[0]) if o.variant != 0 else none()
+
+
+@model(r'(?:core|std|alloc)::str::<impl str>::strip_suffix::<&str>|(?:core|std|alloc)::str::<impl str>::strip_suffix::<&(?:std::string::)?String>')
+def str_strip_suffix_str(ex, m, a, fr, dest):
+    s, p = deref(a[0]), deref(a[1])
+    if isinstance(s, str) and isinstance(p, str):
+        return some(s[:len(s) - len(p)]) if s.endswith(p) else none()
+    s, p = as_symstr(s), as_symstr(p)
+    if is_sym(p.n):
+        raise Unsupported('strip_suffix with symbolic-length pattern')
+    if ex.branch(str_ends_with_str2(ex, m, [s, p], fr, dest), 'strip_suffix'):
+        return some(str_simplify(SymStr(s.chars, s.n - p.n)))
+    return none()
+
+
+@model(r'(?:core|std|alloc)::str::<impl str>::(trim_end_matches|trim_start_matches|trim_matches)::<char>')
+def str_trim_matches_char(ex, m, a, fr, dest):
+    s = as_symstr(deref(a[0]))
+    c = a[1]
+    kind = m.group(1)
+    if kind in ('trim_start_matches', 'trim_matches'):
+        while len(s.chars) > 0 and ex.branch(b_and(b_lt(0, s.n), eq(s.chars[0], c)), 'trim start'):
+            s = s.slice_chars(1)
+    if kind in ('trim_end_matches', 'trim_matches'):
+        for _ in range(len(s.chars) + 1):
+            if not ex.branch(b_and(b_lt(0, s.n), eq(s.elem(zint(s.n) - 1) if is_sym(s.n) else (s.chars[s.n - 1] if s.n > 0 else -1), c)), 'trim end'):
+                break
+            s = SymStr(s.chars, s.n - 1)
+    return str_simplify(s)
+
+
+@model(r'(?:core|std|alloc)::str::<impl str>::repeat')
+def str_repeat(ex, m, a, fr, dest):
+    s, n = deref(a[0]), a[1]
+    if is_sym(n) or not isinstance(str_simplify(s), str):
+        raise Unsupported('symbolic str::repeat')
+    return str_simplify(s) * n
+
+
+@model(r'(?:core|std)::num::<impl (\w+)>::(pow|div_ceil|is_power_of_two|abs_diff)|<(\w+) as Ord>::(clamp)')
+def int_more_ops(ex, m, a, fr, dest):
+    ty = m.group(1) or m.group(3)
+    op = m.group(2) or m.group(4)
+    if ty not in INT_BITS:
+        return NotImplemented
+    x = a[0]
+    if op == 'pow':
+        e = a[1]
+        if is_sym(e) or e > 64:
+            raise Unsupported('pow with symbolic exponent')
+        v = 1
+        for _ in range(e):
+            v = v * x
+        if is_sym(v):
+            if not ex.branch(in_range(v, ty), 'pow overflow'):
+                ex.env.setdefault('overflowed', []).append('pow in ' + (fr.name if fr else '?'))
+                v = wrap(v, ty)
+        elif not in_range(v, ty):
+            ex.env.setdefault('overflowed', []).append('pow in ' + (fr.name if fr else '?'))
+            v = wrap(v, ty)
+        return v
+    if op == 'div_ceil':
+        d = a[1]
+        if not ex.branch(b_not(eq(d, 0)), 'div_ceil divisor non-zero'):
+            raise Panic('attempt to divide by zero', fr.name if fr else None)
+        if is_sym(x) or is_sym(d):
+            return (zint(x) + zint(d) - 1) / zint(d)
+        return -(-x // d)
+    if op == 'is_power_of_two':
+        if is_sym(x):
+            return b_or(*[eq(x, 1 << i) for i in range(INT_BITS[ty])])
+        return x > 0 and (x & (x - 1)) == 0
+    if op == 'abs_diff':
+        y = a[1]
+        return ite(b_lt(x, y), y - x, x - y) if (is_sym(x) or is_sym(y)) else abs(x - y)
+    lo_, hi_ = a[1], a[2]
+    return ite(b_lt(x, lo_), lo_, ite(b_lt(hi_, x), hi_, x)) if any(is_sym(v) for v in (x, lo_, hi_)) else max(lo_, min(hi_, x))
+
+
+@model(r'(?:std::mem::|core::mem::)?swap::<.*>')
+def mem_swap(ex, m, a, fr, dest):
+    x, y = a[0], a[1]
+    vx, vy = x.get(), y.get()
+    x.set(vy)
+    y.set(vx)
+    return UNIT
+
+
+@model(r'(?:std::string::)?String::with_capacity')
+def string_with_capacity(ex, m, a, fr, dest):
+    return ''
+
+
+@model(r'(?:std::string::)?String::pop')
+def string_pop(ex, m, a, fr, dest):
+    r = a[0]
+    s = as_symstr(r.get())
+    if not ex.branch(b_lt(0, s.n), 'String::pop non-empty'):
+        return none()
+    last = s.elem(zint(s.n) - 1) if is_sym(s.n) else s.chars[s.n - 1]
+    r.set(str_simplify(SymStr(s.chars, s.n - 1)))
+    return some(last)
+
+
+@model(r'(?:std::collections::)?(?:HashSet|BTreeSet)::<.*>::extend::<.*>|<(?:std::collections::)?(?:HashSet|BTreeSet)<.*> as Extend<.*>>::extend::<.*>')
+def set_extend(ex, m, a, fr, dest):
+    st = deref(a[0])
+    for x in _gen(as_pyiter(ex, a[1])):
+        st.insert(ex, deref(x) if isinstance(x, Ref) else x)
+    return UNIT
+
+
+@model(r'(?:std::collections::)?(?:HashSet|BTreeSet)::<.*>::is_subset')
+def set_is_subset(ex, m, a, fr, dest):
+    x, y = deref(a[0]), deref(a[1])
+    return all(y.find(ex, v) is not None for v in list(x.items))
+
+
+@model(r'(?:std::collections::)?(?:HashMap|BTreeMap)::<.*>::remove::<.*>')
+def map_remove(ex, m, a, fr, dest):
+    mp = deref(a[0])
+    i = mp.find(ex, deref(a[1]))
+    if i is None:
+        return none()
+    v = mp.items[i][1]
+    del mp.items[i]
+    return some(v)
+
+
+@model(r'(?:std::collections::)?(?:HashMap|BTreeMap)::<.*>::get_mut::<.*>|(?:std::collections::)?BTreeMap::<.*>::get::<.*>')
+def map_get_mut(ex, m, a, fr, dest):
+    mp = deref(a[0])
+    i = mp.find(ex, deref(a[1]))
+    return none() if i is None else some(Ref(mp.items[i], 1, True))
+
+
+@model(r'(?:std::collections::)?(?:HashMap|BTreeMap)::<.*>::(values|into_values)')
+def map_values(ex, m, a, fr, dest):
+    mp = deref(a[0])
+    return PyIter((Ref(kv, 1) for kv in list(mp.items)), len(mp.items))
+
+
+@model(r'(?:std::collections::)?BTreeMap::<.*>::(insert|contains_key)(?:::<.*>)?')
+def btreemap_ops(ex, m, a, fr, dest):
+    mp = deref(a[0])
+    if m.group(1) == 'insert':
+        return mp.insert(ex, a[1], a[2])
+    return mp.find(ex, deref(a[1])) is not None
